@@ -212,7 +212,7 @@ func (c *c14Totp) setLast(t *testing.T, user string, last int64) {
 	if err := st.SaveUserProfile(user, profile); err != nil {
 		t.Fatal(err)
 	}
-	// trees with fix 7fb7785 (C05) also remember the step of the last success in the throttle entry, and
+	// trees with fix 039aed5 (C05) also remember the step of the last success in the throttle entry, and
 	// the replay guard takes the larger of the two: the simulated "last accepted step" has to be put there
 	// too (by name: the field does not exist before that fix)
 	st.totpLocalTateLimitMutex.Lock()
